@@ -78,7 +78,10 @@ func zzTokenGet(tok string) (*token.Stateful, string, error) {
 	}
 	return &token.Stateful{Token: tok, Group: g}, "etag", nil
 }
+var zzLastToken *token.Stateful
+
 func zzTokenUpdate(tok *token.Stateful, etag string) (*token.Stateful, error) {
+	zzLastToken = tok
 	zzFx = append(zzFx, zzEffect{name: "token-update", group: tok.Group})
 	return tok, nil
 }
@@ -422,3 +425,47 @@ func H_C12_Actions() {
 // models of the configuration readers (files on disk in the real code)
 func zzICEConf() *webrtc.Configuration            { return nil }
 func zzGetConf() (*group.Configuration, error) { return &group.Configuration{}, nil }
+
+
+var zzTokPerms = []string{"op", "present", "message", "token", "record"}
+
+// H_C11_MakeToken: a member with the rights of any role asks for a token
+// carrying ANY list of up to N permissions (in any order, with repetitions),
+// with or without expiry, for its own or another group: a token is stored
+// only if the creator holds 'token' and EVERY listed permission, the token is
+// for the creator's own group, not hierarchical, and expires.
+func H_C11_MakeToken() {
+	n := 1 + v.Choice("n", v.Param("N"))
+	var ps []interface{}
+	var pl []string
+	for i := 0; i < n; i++ {
+		p := zzTokPerms[v.Choice(v.Idx("p", i), len(zzTokPerms))]
+		ps = append(ps, p)
+		pl = append(pl, p)
+	}
+	shape := v.Choice("shape", 4) // 0 well-formed, 1 no expiry, 2 another group, 3 hierarchical
+	c, _, _, _ := zzWorld(1)
+	zzLastToken = nil
+	val := map[string]interface{}{"group": "g", "expires": "2100-01-01T00:00:00Z", "permissions": ps}
+	switch shape {
+	case 1:
+		delete(val, "expires")
+	case 2:
+		val["group"] = "elsewhere"
+	case 3:
+		val["includeSubgroups"] = true
+	}
+	perms := append([]string(nil), c.permissions...)
+	handleClientMessage(c, clientMessage{Type: "groupaction", Kind: "maketoken", Group: "g", Value: val})
+	if zzLastToken != nil {
+		v.Assert(zzHasPerm(perms, "token"), "token creation needs 'token'")
+		for _, p := range pl {
+			v.Assert(zzHasPerm(perms, p), "token creation can only delegate permissions the creator holds")
+		}
+		v.Assert(len(zzLastToken.Permissions) == len(pl), "the stored token carries the requested permissions, no more")
+		v.Assert(zzLastToken.Group == "g" && !zzLastToken.IncludeSubgroups, "the token is for the creator's own group only")
+		v.Assert(zzLastToken.Expires != nil, "the token expires")
+		v.Reach("created")
+	}
+	v.Reach("end")
+}
